@@ -88,8 +88,8 @@ class C04(Prop):
 
     def gen(self, rng, family, tier):
         version = family.split("-")[1]
-        flavour = rng.choice(["sync", "async"])
-        nsess = rng.choice([1, 1, 2])
+        flavour = rng.choice(["sync", "async", "sync", "async", "threads"])
+        nsess = rng.choice([1, 1, 2]) if flavour != "threads" else rng.choice([2, 3, 4])
         maxreq = 4 if tier == "quick" else 8
         rows = gen.mib(rng, n=rng.randint(2, 8))
         agent = {"mib": rows, "stamp": True, "communities": []}
@@ -147,7 +147,7 @@ class C04(Prop):
                 per = {s: [o for o in ops if o.get("s") == s] for s in range(nsess)}
                 order = [o.get("s") for o in ops]
                 ops = [per[s].pop(0) for s in order]
-        return {"flavour": flavour, "agent": agent, "sessions": sessions, "ops": ops, "scripts": scripts, "latency_ns": lat, "ready_order_seed": rng.randrange(2**31), "rx_tail": rng.choice(["poison", "keep"])}
+        return {"flavour": flavour, "agent": agent, "sessions": sessions, "ops": ops, "scripts": scripts, "latency_ns": lat, "ready_order_seed": rng.randrange(2**31), "rx_tail": rng.choice(["poison", "keep"]), "sched_seed": rng.randrange(2**31)}
 
     def check(self, run):
         out = []
